@@ -2,7 +2,7 @@
 SPECIFICATION Spec
 CONSTANTS
   TargetIds = {1, 3, 4, 7, 9, 10, 12, 13, 15}
-  MountCfgIds = {2, 3, 6, 8}
+  MountCfgIds = {2, 6, 8, 10}
   SecretIds = {2, 4}
 INVARIANTS Emit
 CHECK_DEADLOCK FALSE
